@@ -1,20 +1,22 @@
-(* Par.v -- model of the multi-folder extraction paths of py7zr (py7zr/py7zr.py; line numbers of the tree at commit 4e1c466):
+(* Par.v -- model of the multi-folder extraction paths of py7zr (py7zr/py7zr.py; line numbers of /repo at
+   commit 5112351):
 
-     SevenZipFile._extract   l.619-631   parallel = not password_protected and not _filePassed
-     Worker.extract          l.1272-1342 one folder: extract_single on the caller's handle;
+     SevenZipFile._extract   l.586-607   output names: `fnames`, repeated names get the first free suffix _<k>
+     SevenZipFile._extract   l.644-655   parallel = not password_protected and not _filePassed
+     Worker.extract          l.1302-1377 one folder: extract_single on the caller's handle;
                                          several folders, not parallel: empty members, then folder by folder
                                          on the caller's handle (an exception propagates at once: the later
                                          folders are never touched);
                                          several folders, parallel: empty members in the caller, then one
                                          Thread (mp=False) or Process (mp=True) per selected folder, each
-                                         given the archive's *name*; start all, join all, then
+                                         given the archive's *name*; start all, join all, then (l.1370-1374)
                                          `if exc_q.empty(): pass else: raise exc_q.get()[1]`
-     Worker.extract_single   l.1344-1370 `fp = open(fp, "rb")` when given a name (own handle per worker);
+     Worker.extract_single   l.1379-1405 `fp = open(fp, "rb")` when given a name (own handle per worker);
                                          with exc_q: every Exception is put on exc_q and the worker ends
-     Worker._extract_single / decompress   per member: open the output "wb" (create/truncate, position 0),
-                                         write chunk after chunk (each <= get_memory_limit()), compare the
-                                         CRC after the last chunk, go on with the next member
-     SevenZipFile._extract   l.635-655   (path target only) utime/chmod of every registered output file:
+     Worker._extract_single  l.1407-1484 / decompress l.1496-   per member: open the output "wb" (create/
+                                         truncate, position 0), write chunk after chunk (each <=
+                                         get_memory_limit()), compare the CRC after the last chunk, next member
+     SevenZipFile._extract   l.661-680   (path target only) utime/chmod of every registered output file:
                                          a file that was never created raises FileNotFoundError here
 
    A worker is the list of atomic actions its folder's packed bytes determine (its decoder, its handle
@@ -193,22 +195,50 @@ Definition select_mode (mp password_protected by_name : bool) (nfolders : nat) :
 Definition chan_of (lo hi : nat) (ch : list (nat * err)) : list (nat * err) :=
   filter (fun p => Nat.leb lo (fst p) && Nat.ltb (fst p) hi) ch.
 
-(* ------------------------------------------------------------------ output names (_extract l.577-583) *)
-(* first occurrence of a name keeps it, the k-th repetition (k >= 1) becomes name_<k-1> *)
+(* ------------------------------------------------------------------ output names (_extract, `fnames`) *)
+(* outname = f.filename
+   while outname in fnames: outname = f.filename + "_%d" % fnames[f.filename]; fnames[f.filename] += 1
+   fnames[outname] = 0
+   (the code after commit 5112351: a generated name is never one that was handed out before) *)
 Definition bytes_eq_dec : forall a b : bytes, {a = b} + {a <> b} := list_eq_dec Z.eq_dec.
-Fixpoint dec_aux (fuel n : nat) (acc : bytes) : bytes :=
-  match fuel with
-  | O => acc
-  | S f => let d := (Z.of_nat (n mod 10) + 48)%Z in
-           if Nat.eqb (n / 10) 0 then d :: acc else dec_aux f (n / 10) (d :: acc)
+Fixpoint uint_bytes (u : Decimal.uint) : bytes :=
+  match u with
+  | Decimal.Nil => []
+  | Decimal.D0 r => 48%Z :: uint_bytes r | Decimal.D1 r => 49%Z :: uint_bytes r
+  | Decimal.D2 r => 50%Z :: uint_bytes r | Decimal.D3 r => 51%Z :: uint_bytes r
+  | Decimal.D4 r => 52%Z :: uint_bytes r | Decimal.D5 r => 53%Z :: uint_bytes r
+  | Decimal.D6 r => 54%Z :: uint_bytes r | Decimal.D7 r => 55%Z :: uint_bytes r
+  | Decimal.D8 r => 56%Z :: uint_bytes r | Decimal.D9 r => 57%Z :: uint_bytes r
   end.
-Definition dec (n : nat) : bytes := dec_aux (S n) n [].
-Fixpoint outnames_from (seen : list bytes) (names : list bytes) : list bytes :=
+Definition dec (n : nat) : bytes := uint_bytes (Nat.to_uint n).       (* "%d" % n *)
+Definition cand (n : bytes) (c : nat) : bytes := n ++ [95%Z] ++ dec c.  (* n + "_%d" % c *)
+
+Definition fdict := list (bytes * nat).      (* the dict fnames, keys in order of insertion *)
+Fixpoint fget (d : fdict) (n : bytes) : option nat :=
+  match d with
+  | [] => None
+  | (k, v) :: r => if bytes_eq_dec k n then Some v else fget r n
+  end.
+Fixpoint fset (d : fdict) (n : bytes) (v : nat) : fdict :=
+  match d with
+  | [] => [(n, v)]
+  | (k, w) :: r => if bytes_eq_dec k n then (k, v) :: r else (k, w) :: fset r n v
+  end.
+Definition cnt (d : fdict) (n : bytes) : nat := match fget d n with Some c => c | None => 0 end.
+(* the while loop; it ends within |fnames|+1 tests (ParProofs.rename_loop_fresh), so the fuel is never used up *)
+Fixpoint rename_loop (fuel : nat) (d : fdict) (n out : bytes) : bytes * fdict :=
+  match fuel with
+  | O => (out, d)
+  | S f => match fget d out with
+           | None => (out, d)
+           | Some _ => rename_loop f (fset d n (S (cnt d n))) n (cand n (cnt d n))
+           end
+  end.
+Fixpoint outnames_from (d : fdict) (names : list bytes) : list bytes :=
   match names with
   | [] => []
-  | n :: r =>
-    let k := count_occ bytes_eq_dec seen n in
-    (match k with O => n | S k' => n ++ [95%Z] ++ dec k' end) :: outnames_from (n :: seen) r
+  | n :: r => let od := rename_loop (S (length d)) d n n in
+              fst od :: outnames_from (fset (snd od) (fst od) 0) r
   end.
 Definition outnames (names : list bytes) : list bytes := outnames_from [] names.
 
